@@ -27,7 +27,8 @@ RULE = ("Enumeration, no sampling inside a year: one case per civil year in -471
         "with get_date(), and day 0 and day len+1 of every month must raise ValueError. "
         "Every day is also given the other way round - its Julian Day number as a float at 0h (and "
         "as an int at noon on every other day) must decode to the date and keep its value - and, "
-        "for years 1..9999, as a datetime.date object. "
+        "for years 1..9999, as a datetime.date object; is_julian() and julian() must name the calendar "
+        "in force on every day. "
         "Every enumerated (date, spelling) is distinct by construction and counts as "
         "non-trivial (nothing is repeated); distinct_nontrivial is the number of "
         "(date, spelling) pairs plus rejected day numbers enumerated.")
@@ -108,6 +109,16 @@ def body_year(case):
                                     site="Epoch.set", kind="from_jd", date=[y, m, d], jd=jd_in,
                                     got=list(gn))
                 n += 1
+            # the library's own statement of the calendar in force on that day
+            want_jul = (y, m, d) < (1582, 10, 15)
+            for what, got_jul in (("Epoch.is_julian(%d, %d, %d)" % (y, m, d), Epoch.is_julian(y, m, d)),
+                                  ("Epoch(%r).julian()" % (jd_in,), en.julian()),
+                                  ("Epoch(%d, %d, %d).julian()" % (y, m, d), e.julian())):
+                if got_jul is not want_jul:
+                    raise Violation("%s = %r; the Julian calendar runs through 4 October 1582, the "
+                                    "Gregorian one from 15 October 1582" % (what, got_jul),
+                                    site="Epoch.julian", kind="calendar_in_force", date=[y, m, d])
+            n += 1
             if 1 <= y <= 9999 and not (m == 2 and d == 29 and y % 100 == 0 and y % 400 != 0):
                 # datetime.date is a documented input form: its fields are the civil date
                 # (in the calendar in force, as for three numbers); 29 February of a Julian
